@@ -64,6 +64,8 @@ type Channel struct {
 
 	rekeyTimer     *Timer
 	handshakeTimer *Timer
+	// waiting is the number of callers blocked waiting for a session.
+	waiting int
 }
 
 func NewChannel(params ChannelConfig) *Channel {
@@ -406,11 +408,24 @@ func (c *Channel) expireSessions(now time.Time) {
 		}
 		c.ready = make(chan struct{})
 	}
-	// expire the prospective session only if it is expired.
-	if s := c.sessions[2].Session; s != nil && s.ExpiresAt().Before(now) {
+	// expire the prospective session if it is expired, or has been handshaking for so long that it is abandoned.
+	if s := c.sessions[2].Session; s != nil && (s.ExpiresAt().Before(now) || now.Sub(c.createdAt(s)) > c.handshakeTimeout()) {
 		c.log.Debug("expiring prospective session")
 		c.sessions[2] = sessionEntry{}
 	}
+}
+
+// handshakeAttempts is the number of retransmission intervals after which a prospective session, which has still
+// not become ready, is abandoned.  A handshake can become impossible to complete, e.g. when the peer restarted or
+// replaced its side of it; abandoning it lets the channel start over instead of waiting for RejectAfterTime.
+const handshakeAttempts = 20
+
+func (c *Channel) handshakeTimeout() time.Duration {
+	return handshakeAttempts * c.params.HandshakeBackoff
+}
+
+func (c *Channel) createdAt(s *Session) time.Time {
+	return s.ExpiresAt().Add(-c.params.RejectAfterTime)
 }
 
 func (c *Channel) getOrInit(ctx context.Context) (*Session, error) {
@@ -424,15 +439,23 @@ func (c *Channel) getOrInit(ctx context.Context) (*Session, error) {
 		}
 		if s := c.sessions[2].Session; s == nil {
 			c.rekeyTimer.Reset(0)
+		} else if !c.handshakeTimer.IsPending() {
+			// the prospective session must be driven: retransmitted, and abandoned if it does not complete.
+			c.handshakeTimer.Reset(c.params.HandshakeBackoff)
 		}
+		c.waiting++
 		ready := c.ready
 		c.mu.Unlock()
 
 		select {
 		case <-ctx.Done():
+			c.mu.Lock()
+			c.waiting--
+			c.mu.Unlock()
 			return nil, ctx.Err()
 		case <-ready:
 			c.mu.Lock()
+			c.waiting--
 			se := c.sessions[1]
 			if se.Session != nil && se.Session.IsReady() {
 				c.mu.Unlock()
@@ -462,9 +485,16 @@ func (c *Channel) onRekey() {
 // And sends handshake messages for them.
 func (c *Channel) onHandshake() {
 	var toSend [][]byte
+	var restart bool
 	func() {
 		c.mu.Lock()
 		defer c.mu.Unlock()
+		next := c.sessions[2].Session
+		c.expireSessions(time.Now())
+		if next != nil && c.sessions[2].Session == nil {
+			// the prospective session was given up: start over if it was our attempt, or if a Send is waiting.
+			restart = next.IsInit() || (c.sessions[1].Session == nil && c.waiting > 0)
+		}
 		for _, se := range c.sessions {
 			if se.Session != nil && !se.Session.IsReady() {
 				out := se.Session.Handshake(nil)
@@ -480,6 +510,9 @@ func (c *Channel) onHandshake() {
 	// need to wake up to send another handshake message
 	if len(toSend) > 0 {
 		c.handshakeTimer.Reset(c.params.HandshakeBackoff)
+	}
+	if restart {
+		c.rekeyTimer.Reset(0)
 	}
 }
 
